@@ -2,5 +2,5 @@
 import resource
 TUS = resource.TUS
 def run(facts, rep, tier):
-    resource.emit(facts, rep, 'C03', ['RES.2b', 'RES.3', 'RES.5', 'RES.6', 'RES.8', 'RES.11'],
-                  {'RES.2b': 3, 'RES.3': 8, 'RES.5': 6, 'RES.6': 4, 'RES.8': 8, 'RES.11': 8})
+    resource.emit(facts, rep, 'C03', ['RES.2b', 'RES.3', 'RES.5', 'RES.6', 'RES.8', 'RES.10', 'RES.11'],
+                  {'RES.2b': 3, 'RES.3': 8, 'RES.5': 6, 'RES.6': 4, 'RES.8': 8, 'RES.10': 2, 'RES.11': 8})
